@@ -286,3 +286,195 @@ Section PartA.
     - eexists. eapply (s_plain s i Fail r); [exact Hk | reflexivity].
   Qed.
 End PartA.
+
+(* ---------------------------------------------------------------- Part B: atomic sections *)
+Section PartB.
+  Variables Sh Lo : Type.
+
+  Definition lin_inv (sh0 : Sh) (th0 : nat -> ath Sh Lo) (log : list nat) (s : ast Sh Lo) : Prop :=
+    let c := seq_run log (sh0, th0) in
+    match a_hold s with
+    | None => a_sh s = fst c /\ forall j, a_th s j = snd c j
+    | Some (i, rest) =>
+        run_body rest (a_sh s) (a_loc (a_th s i)) = (fst c, a_loc (snd c i)) /\
+        a_todo (a_th s i) = a_todo (snd c i) /\
+        forall j, j <> i -> a_th s j = snd c j
+    end.
+
+  Lemma lin_lemma (sh0 : Sh) (th0 : nat -> ath Sh Lo) log (s : ast Sh Lo) : aexec (ainit sh0 th0) log s -> lin_inv sh0 th0 log s.
+  Proof.
+    intros H. induction H as [|log s lab s' Hex IH Hst].
+    - unfold lin_inv. cbn. split; [reflexivity | intros j; reflexivity].
+    - unfold lin_inv in *. destruct Hst as [i b r Hh Ht | i ins rest s1 l1 Hh Hi | i Hh].
+      + rewrite Hh in IH. destruct IH as [IH1 IH2]. cbn [a_hold a_sh a_th].
+        unfold seq_run in *. rewrite fold_left_app. cbn [fold_left].
+        set (c := fold_left seq_step log (sh0, th0)) in *.
+        unfold seq_step. rewrite <- (IH2 i). rewrite Ht. rewrite <- IH1.
+        destruct (run_body b (a_sh s) (a_loc (a_th s i))) as [s2 l2] eqn:E.
+        cbn [fst snd]. rewrite !upd_eq. cbn [a_loc a_todo]. split; [exact E|]. split; [reflexivity|].
+        intros j Hj. rewrite !upd_neq by exact Hj. apply IH2.
+      + rewrite Hh in IH. destruct IH as [IH1 [IH2 IH3]]. cbn [a_hold a_sh a_th]. rewrite app_nil_r.
+        cbn [run_body] in IH1. rewrite Hi in IH1. rewrite upd_eq. cbn [a_loc a_todo].
+        split; [exact IH1|]. split; [exact IH2|]. intros j Hj. rewrite upd_neq by exact Hj. apply IH3; exact Hj.
+      + rewrite Hh in IH. destruct IH as [IH1 [IH2 IH3]]. cbn [a_hold a_sh a_th]. rewrite app_nil_r.
+        cbn [run_body] in IH1. injection IH1 as E1 E2. split; [exact E1|].
+        intros j. destruct (Nat.eq_dec j i) as [->|Hj]; [|apply IH3; exact Hj].
+        destruct (a_th s i) as [l t], (snd (seq_run log (sh0, th0)) i) as [l' t']. cbn in *. congruence.
+  Qed.
+
+  (* every interleaving, once nobody is inside a section, is in exactly the state the sequential
+     execution of the sections in lock-acquisition order produces *)
+  Lemma linearizable_lemma (sh0 : Sh) (th0 : nat -> ath Sh Lo) log (s : ast Sh Lo) :
+    aexec (ainit sh0 th0) log s -> a_hold s = None ->
+    a_sh s = fst (seq_run log (sh0, th0)) /\ forall j, a_th s j = snd (seq_run log (sh0, th0)) j.
+  Proof.
+    intros H Hh. apply lin_lemma in H. unfold lin_inv in H. rewrite Hh in H. exact H.
+  Qed.
+
+  Lemma seq_run_ind (P : Sh * (nat -> ath Sh Lo) -> Prop) log c :
+    P c -> (forall c i, P c -> P (seq_step c i)) -> P (seq_run log c).
+  Proof.
+    intros H0 Hs. revert c H0. unfold seq_run. induction log as [|i log IH]; intros c H0; cbn [fold_left]; [exact H0|].
+    apply IH. apply Hs. exact H0.
+  Qed.
+End PartB.
+
+(* B2: k concurrent serialize(p) of one profile each return serialize p *)
+Section SerializeProof.
+  Variables P Scratch Bytes : Type.
+  Variable pre : P -> Scratch.
+  Variable marshal : P -> Scratch -> Bytes.
+  Variable p : P.
+  Let body := serialize_body P Scratch Bytes pre marshal p.
+  Let out := serialize_seq P Scratch Bytes pre marshal p.
+
+  Definition ser_init (th0 : nat -> ath Scratch (option Bytes)) : Prop :=
+    forall j, a_loc (th0 j) = None /\ Forall (eq body) (a_todo (th0 j)).
+
+  Lemma serialize_lemma sc0 th0 log s j :
+    ser_init th0 -> aexec (ainit sc0 th0) log s -> a_hold s = None ->
+    (a_loc (a_th s j) = Some out \/ (a_loc (a_th s j) = None /\ a_todo (a_th s j) = a_todo (th0 j))).
+  Proof.
+    intros Hi Hex Hh. destruct (linearizable_lemma _ _ _ _ _ _ Hex Hh) as [_ Hth]. rewrite Hth.
+    revert j.
+    apply (seq_run_ind _ _ (fun c => forall j, Forall (eq body) (a_todo (snd c j)) /\
+              (a_loc (snd c j) = Some out \/ (a_loc (snd c j) = None /\ a_todo (snd c j) = a_todo (th0 j))))).
+    - intros j. cbn. destruct (Hi j) as [H1 H2]. split; [exact H2 | right; split; [exact H1 | reflexivity]].
+    - intros c i Hc j. unfold seq_step. destruct (a_todo (snd c i)) as [|b r] eqn:Et; [apply Hc|].
+      destruct (Hc i) as [Hf _]. rewrite Et in Hf. inversion Hf as [|b' r' Hb Hr]; subst b' r'. rewrite <- Hb.
+      unfold body, serialize_body. cbn [run_body]. cbn [snd].
+      destruct (Nat.eq_dec j i) as [->|Hj].
+      + rewrite upd_eq. cbn. split; [exact Hr | left; reflexivity].
+      + rewrite upd_neq by exact Hj. apply Hc.
+  Qed.
+End SerializeProof.
+
+(* B3: sync.Once: the body runs once, every caller that has returned reads the value it computed *)
+Section OnceProof.
+  Variables A V : Type.
+  Variable f : A -> V.
+  Variable addr : nat -> A.
+
+  Definition once_init (th0 : nat -> ath (option V * nat) (option V)) : Prop :=
+    forall j, a_loc (th0 j) = None /\ (a_todo (th0 j) = [] \/ a_todo (th0 j) = [once_body A V f (addr j)]).
+
+  Definition once_post (th0 : nat -> ath (option V * nat) (option V)) (c : (option V * nat) * (nat -> ath (option V * nat) (option V))) : Prop :=
+    (fst c = (None, O) /\ forall j, snd c j = th0 j) \/
+    (exists a, fst c = (Some (f a), 1%nat) /\
+               forall j, (a_loc (snd c j) = Some (f a) /\ a_todo (snd c j) = []) \/ snd c j = th0 j).
+
+  Lemma once_lemma th0 log s :
+    once_init th0 -> aexec (ainit (None, O) th0) log s -> a_hold s = None ->
+    (a_sh s = (None, O) /\ forall j, a_th s j = th0 j) \/
+    (exists a, a_sh s = (Some (f a), 1%nat) /\
+               forall j, (a_loc (a_th s j) = Some (f a) /\ a_todo (a_th s j) = []) \/ a_th s j = th0 j).
+  Proof.
+    intros Hi Hex Hh. destruct (linearizable_lemma _ _ _ _ _ _ Hex Hh) as [Hs Hth].
+    assert (Hp : once_post th0 (seq_run log ((None, O), th0))).
+    { apply seq_run_ind.
+      - left. split; [reflexivity | intros j; reflexivity].
+      - intros c i Hc. unfold seq_step. destruct (a_todo (snd c i)) as [|b r] eqn:Et; [exact Hc|].
+        destruct Hc as [[H1 H2]|[a [H1 H2]]].
+        + rewrite H2 in Et. destruct (Hi i) as [Hl [Hn|Hn]]; rewrite Hn in Et; [discriminate|].
+          inversion Et; subst b r. rewrite H1. unfold once_body. cbn [run_body fst snd].
+          right. exists (addr i). split; [reflexivity|]. intros j. cbn [fst snd]. destruct (Nat.eq_dec j i) as [->|Hj].
+          * rewrite upd_eq. cbn. left. split; reflexivity.
+          * rewrite upd_neq by exact Hj. right. apply H2.
+        + destruct (H2 i) as [[_ Hn]|Hn]; [rewrite Hn in Et; discriminate|].
+          rewrite Hn in Et. destruct (Hi i) as [Hl [Hn'|Hn']]; rewrite Hn' in Et; [discriminate|].
+          inversion Et; subst b r. rewrite H1. unfold once_body. cbn [run_body fst snd].
+          right. exists a. split; [reflexivity|]. intros j. cbn [fst snd]. destruct (Nat.eq_dec j i) as [->|Hj].
+          * rewrite upd_eq. cbn. left. split; reflexivity.
+          * rewrite upd_neq by exact Hj. apply H2. }
+    destruct Hp as [[H1 H2]|[a [H1 H2]]].
+    - left. split; [congruence | intros j; rewrite Hth; apply H2].
+    - right. exists a. split; [congruence | intros j; rewrite Hth; apply H2].
+  Qed.
+End OnceProof.
+
+(* ---------------------------------------------------------------- Part C: temp files *)
+Section PartC.
+  Variable nm : nat -> string.
+  Variable limit : nat.
+  Variable eb : string -> bool.
+  Variable active : nat -> bool.
+
+  Record tinv (s : tst) : Prop := {
+    ti_done : forall i name, t_th s i = TDone name -> t_dir s name = Some (Some i);
+    ti_old : forall name, eb name = true -> t_dir s name = Some None;
+    ti_new : forall name i, t_dir s name = Some (Some i) -> eb name = false
+  }.
+
+  Lemma tinv_reach s : treach nm limit true (tinit eb active) s -> tinv s.
+  Proof.
+    intros H. induction H as [|s s' _ IH Hst].
+    - constructor; cbn.
+      + intros i name. destruct (active i); discriminate.
+      + intros name Hn. rewrite Hn. reflexivity.
+      + intros name i. destruct (eb name); discriminate.
+    - destruct IH as [I1 I2 I3]. destruct Hst as [i n Hr Hd | i n Hr Hd He | i n Hr Hd He | i n Hr]; [| |discriminate|].
+      + constructor; cbn [t_dir t_th].
+        * intros j name. destruct (Nat.eq_dec j i) as [->|Hj].
+          -- rewrite upd_eq. intros E. inversion E. apply supd_eq.
+          -- rewrite upd_neq by exact Hj. intros E. apply I1 in E.
+             destruct (String.eqb_spec name (nm n)) as [->|Hne]; [congruence | rewrite supd_neq by exact Hne; exact E].
+        * intros name Hn. apply I2 in Hn.
+          destruct (String.eqb_spec name (nm n)) as [->|Hne]; [congruence | rewrite supd_neq by exact Hne; exact Hn].
+        * intros name j. destruct (String.eqb_spec name (nm n)) as [->|Hne].
+          -- intros _. destruct (eb (nm n)) eqn:E; [apply I2 in E; congruence | reflexivity].
+          -- rewrite supd_neq by exact Hne. apply I3.
+      + constructor; cbn [t_dir t_th]; [|exact I2|exact I3].
+        intros j name. destruct (Nat.eq_dec j i) as [->|Hj]; [rewrite upd_eq | rewrite upd_neq by exact Hj; apply I1].
+        destruct (Nat.ltb (S n) limit); discriminate.
+      + constructor; cbn [t_dir t_th]; [|exact I2|exact I3].
+        intros j name. destruct (Nat.eq_dec j i) as [->|Hj]; [rewrite upd_eq; discriminate | rewrite upd_neq by exact Hj; apply I1].
+  Qed.
+
+  Lemma tempfile_lemma s :
+    treach nm limit true (tinit eb active) s ->
+    (forall i j n1 n2, i <> j -> t_th s i = TDone n1 -> t_th s j = TDone n2 -> n1 <> n2) /\
+    (forall i n, t_th s i = TDone n -> eb n = false) /\
+    (forall name, eb name = true -> t_dir s name = Some None).
+  Proof.
+    intros H. destruct (tinv_reach s H) as [I1 I2 I3]. split; [|split].
+    - intros i j n1 n2 Hij H1 H2 E. subst n2. apply I1 in H1. apply I1 in H2. congruence.
+    - intros i n Hn. apply I1 in Hn. eapply I3; exact Hn.
+    - exact I2.
+  Qed.
+
+  (* without O_EXCL two concurrent calls can return the same name (and truncate each other's file) *)
+  Lemma nonexcl_collides_lemma :
+    eb (nm 1) = false -> active 0%nat = true -> active 1%nat = true ->
+    exists s, treach nm limit false (tinit eb active) s /\ t_th s 0%nat = TDone (nm 1) /\ t_th s 1%nat = TDone (nm 1).
+  Proof.
+    intros He A0 A1.
+    eexists. split.
+    - eapply treachS; [eapply treachS; [apply treach0|]|].
+      + apply (t_create nm limit false _ 0%nat 1%nat); cbn; [rewrite A0; reflexivity | rewrite He; reflexivity].
+      + apply (t_clobber nm limit false _ 1%nat 1%nat); cbn [t_th t_dir].
+        * rewrite upd_neq by discriminate. cbn. rewrite A1. reflexivity.
+        * rewrite supd_eq. discriminate.
+        * reflexivity.
+    - cbn. split; reflexivity.
+  Qed.
+End PartC.
